@@ -793,7 +793,7 @@ fn wrap_cases(a: &Args, variant: &str) -> Vec<Vec<String>> {
         for r in 1..=rounds {
             tag += 1;
             lines.push(format!("send 0 {r} {tag}"));
-            if rng.chance(30) { lines.push(format!("recvreq 0 {na}")); if rng.chance(70) { lines.push(format!("dactive 0 {na}")); } na += 1; }
+            if rng.chance(if act >= 2 { 60 } else { 30 }) { lines.push(format!("recvreq 0 {na}")); if rng.chance(70) { lines.push(format!("dactive 0 {na}")); } na += 1; }
             lines.push(format!("dpending 0 {r}"));
         }
         let rn = rounds + 1;
